@@ -107,7 +107,8 @@ func c16(r *Run) {
 
 	// ---- wire bookkeeping
 	pendingGP := map[string]time.Time{} // dest|t of get_peers S has on the wire -> when written
-	var resps []c16resp            // get_peers responses delivered to S that matched
+	queriedGP := map[string]int{}
+	var resps []c16resp // get_peers responses delivered to S that matched
 	var announces []*core.Write
 	stopCalledAt := time.Time{}
 	stopCalled := false
@@ -121,6 +122,16 @@ func c16(r *Run) {
 		t, _ := wr.D.Str("t")
 		switch m, _ := wr.D.Str("q"); m {
 		case "get_peers":
+			if _, again := pendingGP[wr.ToStr+"|"+t]; !again {
+				queriedGP[wr.ToStr]++
+				if queriedGP[wr.ToStr] > 1 {
+					// C04 on the wire: one traversal, one query per address
+					r.Violate("address-queried-twice", "the announce traversal sent %d get_peers transactions to %s", queriedGP[wr.ToStr], wr.ToStr)
+				}
+				if wr.To.Port == 0 {
+					r.Violate("filtered-address-queried", "the announce traversal queried zero-port address %s", wr.ToStr)
+				}
+			}
 			pendingGP[wr.ToStr+"|"+t] = wr.At
 			a, _ := wr.D.Dict("a")
 			if sc, _ := a.Int("scrape"); (sc == 1) != (mode == 3) {
